@@ -1553,7 +1553,11 @@ SoPlexBase<R>& SoPlexBase<R>::operator=(const SoPlexBase<R>& rhs)
       {
          if(_rationalLP != nullptr)
          {
-            clearLPRational();
+            // drop the rational LP of this object and what was derived from it; not through clearLPRational(), which
+            // invalidates status and solution - they are those of rhs already
+            _rationalLUSolver.clear();
+            _rowTypes.clear();
+            _colTypes.clear();
             _rationalLP->~SPxLPRational();
             spx_free(_rationalLP);
          }
